@@ -216,7 +216,9 @@ func runC02(c *ev.Ctx) {
 	c.Assumptions = refAssume
 	seed := uint64(c.Seed)
 	r := gen.NewRng(gen.Mix(seed, 202))
-	all := func(n int) []Spec { return []Spec{{T: "runs"}, {T: "runsDist"}, {"longest", 1}, {"longest", 0}} }
+	all := func(n int) []Spec {
+		return []Spec{{T: "runs"}, {T: "runsDist"}, {"longest", 1}, {"longest", 0}, {"longestBytes", 1}, {"longestBytes", 0}}
+	}
 	lens := append([]int{}, quickLens...)
 	lens = append(lens, seededLens(r, 40, 100, 33333)...)
 	works := famWorks(gen.Mix(seed, 1), gen.Families, lens, 8, all)
@@ -257,10 +259,12 @@ func runC02(c *ev.Ctx) {
 		}
 	}
 	// longest-run regime edges: cheap even at 750000 bits, so both tiers
-	lrOnly := func(n int) []Spec { return []Spec{{"longest", 1}, {"longest", 0}} }
-	for _, n := range []int{128, 135, 6271, 6272, 6273, 749999, 750000, 750001} {
-		for _, f := range []string{"uniform", "slight", "markov", "biased", "zeros", "ones"} {
-			works = append(works, seqWork{Seq: gen.Seq{Fam: f, N: n, Seed: gen.Mix(seed, 7, uint64(n))}, Specs: lrOnly(n), Degenerate: degenerateFam(f)})
+	lrOnly := func(n int) []Spec {
+		return []Spec{{"longest", 1}, {"longest", 0}, {"longestBytes", 1}, {"longestBytes", 0}}
+	}
+	for _, n := range []int{128, 135, 6271, 6272, 6273, 6280, 749999, 750000, 750001, 750008, 1000000} {
+		for _, f := range []string{"uniform", "slight", "markov", "biased", "zeros", "ones", "longruns", "longruns", "longruns"} {
+			works = append(works, seqWork{Seq: gen.Seq{Fam: f, N: n, A: map[bool]int{true: 6, false: 0}[f == "longruns"], Seed: gen.Mix(seed, 7, uint64(n), uint64(len(works)))}, Specs: lrOnly(n), Degenerate: degenerateFam(f)})
 			c.Count("regime_edge_sequences", 1)
 		}
 	}
